@@ -103,6 +103,16 @@ func (w *ConfigurationWatcher) Start(ch chan<- controller.ID) error {
 				Target: event.Configuration.ID.Target,
 				Index:  event.Configuration.Applied.Index,
 			})
+			// Whatever moved the committed or applied index - a completion, a failure, an abort - may have
+			// unblocked the transaction that follows it in the log.
+			ch <- controller.NewID(configapi.TransactionID{
+				Target: event.Configuration.ID.Target,
+				Index:  event.Configuration.Committed.Index + 1,
+			})
+			ch <- controller.NewID(configapi.TransactionID{
+				Target: event.Configuration.ID.Target,
+				Index:  event.Configuration.Applied.Index + 1,
+			})
 		}
 	}()
 	return nil
